@@ -210,6 +210,34 @@ CLAIMED["C12"] = dict(
     design="DESIGN.md section 3, C12",
 )
 
+CLAIMED["C01"] = dict(
+    category="other",
+    technique="static cross-language writer/reader agreement: interprocedural string-literal propagation through the printer (typed HIR) vs. exported classes/constructor arity/literal unions (swc AST) vs. the glue's import list; shape rules for regex anchoring, escape set, interface completeness",
+    text=("Decides structural necessary conditions only - NOT membership of values: every constructor name the Rust printer can "
+          "emit (22, found by propagating string literals through its helpers to the sites that build `new <Name>(..)`) is "
+          "imported or defined by the JS glue and exported by the client, with the emitted argument count equal to the "
+          "constructor's arity and literal arguments inside the declared literal unions (1 known finding: "
+          "TypeofRuntype(\"function\")); template-literal regexes are matched against the whole string (was violated; "
+          "fixed); escape_regex covers all 15 syntax characters, backslash first; all 22 concrete runtime classes implement "
+          "all 8 interface methods; typed-array names agree with the 11 ECMAScript globals on both sides."),
+    note=("Trusted: rustc typed HIR, swc AST. The behavioural core of C01 (the validator accepts exactly the members of the "
+          "type, for all programs and values) has no sound static argument in reach and is not decided."),
+    design="DESIGN.md section 3, C01",
+)
+
+CLAIMED["C15"] = dict(
+    category="other",
+    technique="static cross-language vocabulary agreement: tokens printable by describe (swc AST string constants, literal-union domains) vs. keywords/builtins the frontend resolves (typed HIR), plus shape rules for quoting and recursion guards",
+    text=("Decides that describe() prints text in the language the compiler reads: every identifier-like token in the string "
+          "constants of every describeTypeExpr / describe helper, and every value of a literal-union field it returns, is a "
+          "keyword arm of extract_ts_keyword_type that does not raise a diagnostic or a literal pattern of "
+          "maybe_generate_ts_builtin (found `BigInt`; fixed); composite classes print the builtin spellings Array<>, Map<,>, "
+          "Set<>, ...Array<>; property keys pass through a quoting step (was violated; fixed); collectDescribeRefs/describe "
+          "test activeRefs/visitedRefs before descending, pair add/delete, and assign definitions under a == null guard."),
+    note="Trusted: rustc typed HIR, swc AST. Not decided: equality (acceptance and hash256) of the second-generation validator.",
+    design="DESIGN.md section 3, C15",
+)
+
 NOT_APPLICABLE_REASON = {}
 
 
